@@ -568,7 +568,7 @@ package interpreter
 // ---- C06 (partial): the encoding rules that the DER / low-S / strict-encoding flags switch on ----
 //@ func scriptflag.Flag.HasFlag
 //@   pure
-//@   ensures[C06.has_flag_bit] (=> (or (= flag 64) (= flag 128) (= flag 2048) (= flag 4096) (= flag 8192)) (= result (= (mod (div s flag) 2) 1)))
+//@   ensures[C06.has_flag_bit] (=> (or (= flag 4) (= flag 64) (= flag 128) (= flag 2048) (= flag 4096) (= flag 8192)) (= result (= (mod (div s flag) 2) 1)))
 //@ func scriptflag.Flag.HasAny
 //@   bytes array
 //@   pure
@@ -576,7 +576,7 @@ package interpreter
 //@   loop 0 invariant (=> (and (= (len flags) 3) (= (at flags 0) 64) (= (at flags 1) 128) (= (at flags 2) 4096)) (and (=> (>= rangeindex 0) (not (= (mod (div s 64) 2) 1))) (=> (>= rangeindex 1) (not (= (mod (div s 128) 2) 1))) (=> (>= rangeindex 2) (not (= (mod (div s 4096) 2) 1)))))
 //@ func interpreter.(*thread).hasFlag
 //@   pure
-//@   ensures[C06.thread_has_flag] (=> (or (= flag 64) (= flag 128) (= flag 2048) (= flag 4096) (= flag 8192)) (= result (spec.flag_on t flag)))
+//@   ensures[C06.thread_has_flag] (=> (or (= flag 4) (= flag 64) (= flag 128) (= flag 2048) (= flag 4096) (= flag 8192)) (= result (spec.flag_on t flag)))
 //@ func interpreter.(*thread).hasAny
 //@   bytes array
 //@   pure
@@ -694,3 +694,10 @@ package interpreter
 //@   bytes token
 //@   opt index-fn 1
 //@   ensures[C05.opcodeHash160] (and (= (= err nil) (>= (old (len (. t dstack stk))) 1)) (=> (= err nil) (spec.stack_res_bytes t 1 (bripemd160 (bsha256 (old (spec.top_bytes t 0)))))))
+// OP_RETURN: an error before Genesis; after Genesis it marks the early return and ends the script successfully (the
+// non-nil "success" value) unless a conditional is open. OP_NOP family: no effect; NOP1, NOP4..NOP10 fail exactly under the
+// discourage-upgradable-NOPs flag (bit 4)
+//@ func interpreter.opcodeReturn
+//@   ensures[C05.opcodeReturn] (and (= (= err nil) (and (. t afterGenesis) (> (len (. t condStack)) 0))) (=> (. t afterGenesis) (. t earlyReturnAfterGenesis)) (= (. t dstack stk) (old (. t dstack stk))) (= (. t condStack) (old (. t condStack))))
+//@ func interpreter.opcodeNop
+//@   ensures[C05.opcodeNop] (and (= (= err nil) (not (and (or (= (. op op val) 176) (and (<= 179 (. op op val)) (<= (. op op val) 185))) (= (mod (div (. t flags) 4) 2) 1)))) (= (. t dstack stk) (old (. t dstack stk))) (= (. t astack stk) (old (. t astack stk))) (= (. t condStack) (old (. t condStack))))
